@@ -12,6 +12,11 @@ def run(ctx):
     res = ctx.vh(["config", "--cases", cases, "--mutations", "20000" if thorough else "1500"], timeout=3000)
     rep.absorb(res)
     rep.extra.update(res.get("extra") or {})
+    # the two small automata configuration resolution rests on: key normalisation and the size syntax
+    ck = ctx.tlc("CamelKey", "MC_CamelKey", timeout=900)
+    rep.absorb(ctx.vh(["camelkey", "--cases", ctx.write_cases("camelkey.ndjson", ck.emitted)], timeout=900))
+    hb = ctx.tlc("HumanBytes", "MC_HumanBytes", timeout=900)
+    rep.absorb(ctx.vh(["humanbytes", "--cases", ctx.write_cases("humanbytes.ndjson", hb.emitted)], timeout=900))
     rep.exhaustive = True
     rep.rule = ("Config.tla: Resolve / ResolveElem for every declaration (required | defaulted) x (string | typed) x six "
                 "treatments (absent, literal, ill-typed, ${present}, ${absent}, ${ill-typed}) x spellings x forms (5888 cases); each "
@@ -20,7 +25,9 @@ def run(ctx):
                 "declared default / the property, or creation must fail.  Element shapes on a probe plugin; 20 whole configurations "
                 "(4 spellings x flat / inline forms) instantiating every registered logger and appender type through Refresh with the "
                 "instantiated field values inspected; 25 error classes (incl. start failures and absurd buffer sizes) must return an "
-                "error; %s random mutation triples of the valid configuration must not panic or hang.  Non-trivial = attributes covered."
+                "error; %s random mutation triples of the valid configuration must not panic or hang.  CamelKey.tla / HumanBytes.tla: every "
+                "class string up to length 5 through the key-normalisation transducer and the size syntax, replayed on toCamelKey and "
+                "ParseHumanizeBytes.  Non-trivial = attributes covered + class strings."
                 % (rep.extra.get("attributes", "?"), rep.extra.get("plugin_types", "?"), "20000" if thorough else "1500"))
     rep.assumptions = ["TLC/SANY", "Go toolchain", "VerifPlugins hook (schema from the live registry)", "type-appropriate literals per Go field type are chosen by the harness"]
     return rep.finish()
